@@ -66,14 +66,22 @@ def _eval_tree_min(cases):
 
 def stub_network():
     """The network helpers answer "nothing found" (cf. tests/test_parserfns.py, which
-    patches wikitextprocessor.wikidata.query_wikidata)."""
+    patches wikitextprocessor.wikidata.query_wikidata).  Returns the function that
+    creates the interwiki table of a context (or a no-op if the tree has none)."""
     common.use_repo()
-    import wikitextprocessor.interwiki as iw
-    import wikitextprocessor.wikidata as wd
+    try:
+        import wikitextprocessor.wikidata as wd
 
-    wd.query_wikidata = lambda wtp, query: {}
-    iw.get_interwiki_data = lambda wtp: []
-    return iw
+        wd.query_wikidata = lambda wtp, query: {}
+    except Exception:
+        pass
+    try:
+        import wikitextprocessor.interwiki as iw
+
+        iw.get_interwiki_data = lambda wtp: []
+        return getattr(iw, "init_interwiki_map", lambda wtp: None)
+    except Exception:
+        return lambda wtp: None
 
 
 def call_text(name, argv):
@@ -82,12 +90,12 @@ def call_text(name, argv):
 
 def _eval_calls(jobs):
     """jobs: list of (title class, [cases])"""
-    iw = stub_network()
+    init_map = stub_network()
     out = []
     for title, cases in jobs:
         res = []
         with pfcommon.Ctx(title=TITLE_TEXT[title]) as c:
-            iw.init_interwiki_map(c.wtp)
+            init_map(c.wtp)
             for case in cases:
                 k, o_ = c.run(call_text(case["name"], case["argv"]))
                 res.append((k, o_[:200], len(c.wtp.errors)))
@@ -189,9 +197,14 @@ def run_b(o: Outcome, tier: str) -> None:
 
     # ---------------- G: every parser function x argument vectors x titles
     common.use_repo()
-    from wikitextprocessor.parserfns import PARSER_FUNCTIONS
+    try:
+        from wikitextprocessor.parserfns import PARSER_FUNCTIONS
 
-    known = sorted(k for k in PARSER_FUNCTIONS if k not in SKIP)
+        known = sorted(k for k in PARSER_FUNCTIONS if k not in SKIP)
+    except ImportError:      # the table moved: fall back to a fixed list, and say so
+        known = sorted(["#expr", "#ifexpr", "#if", "#switch", "#time", "#titleparts", "#rel2abs", "#pad", "padleft", "padright",
+                        "TALKPAGENAME", "TALKSPACE", "PAGENAME", "formatnum", "plural", "lc", "#len", "#sub", "ns", "fullurl"])
+        o.note_drift({"note": "PARSER_FUNCTIONS not importable from wikitextprocessor.parserfns; a fixed list of names is used"})
     with Scratch("c05n-") as d:
         (d / "names.json").write_text(json.dumps({"known": known, "names": known + UNKNOWN_NAMES}))
         r = tlc("Gen_ParserFns", "Gen_ParserFns.cfg", workers=8, timeout=3000, env={"NAMES_FILE": str(d / "names.json")})
